@@ -572,7 +572,16 @@ impl<'a> CompiledPredicate<'a> {
             DataType::Integer | DataType::BigInt | DataType::SmallInt | DataType::TinyInt => {
                 match val {
                     Value::Int(n) => Some(Value::Int(*n)),
-                    Value::Float(f) => Some(Value::Int(*f as i64)),
+                    Value::Float(f) => {
+                        let t = f.trunc();
+                        if t >= -9_223_372_036_854_775_808.0 && t < 9_223_372_036_854_775_808.0 {
+                            Some(Value::Int(t as i64))
+                        } else if f.is_nan() {
+                            None
+                        } else {
+                            integer_overflow("CAST")
+                        }
+                    }
                     Value::Text(s) => s.parse::<i64>().ok().map(Value::Int),
                     Value::Null => Some(Value::Null),
                     _ => None,
